@@ -28,7 +28,7 @@ def LISTS(name, policy, dd, two, npre, **kw):
              'one trust message whose first key owner lists 2 %s keys (symbolic, may coincide with each other / the sender key)%s; %d postponed-decision slots in the pre-state'
              % ('distrusted' if dd else 'trusted', ' and a second owner entry (same or other account) with 1 key of the opposite kind' if two else '', npre), **kw)
 GROUPS = [
-    dict(name='ext_atm', harness='ext_h.cpp', tus=_b.TUS, models=_b.MODELS, shadow_task=True, cand=_b.CAND,
+    dict(name='ext_atm', harness='ext_h.cpp', tus=_b.TUS, models=_b.MODELS, shadow_task=True, cand=_b.CAND, block_order='wto',
          instances=[
              AUTH('ext_auth_own_t_pT', 0, 1, 1, 1, 0, 0),
              AUTH('ext_auth_con_t_pD', 0, 0, 0, 1, 0, 1),
@@ -43,7 +43,7 @@ GROUPS = [
              INERT('ext_inert_noelem', 0, 2, 1, 0, 1),
              _b.MAN('ext_manual_o_a_f6', 0, 1, 0, own=1, fixed=6, tiers=T),
          ]),
-    dict(name='ext_atm_k2', harness='ext_h.cpp', tus=_b.TUS, models=_b.MODELS, shadow_task=True, cand=_b.CAND, cxxdefs={'MAX_KEYS': 2},
+    dict(name='ext_atm_k2', harness='ext_h.cpp', tus=_b.TUS, models=_b.MODELS, shadow_task=True, cand=_b.CAND, block_order='wto', cxxdefs={'MAX_KEYS': 2},
          instances=[
              LISTS('ext_lists_tt', 0, 0, 0, 1, tiers=T, mem_gb=6),
              LISTS('ext_lists_dd_t_toakafa', 1, 1, 1, 1, tiers=T, mem_gb=6),
